@@ -155,3 +155,57 @@ pub fn sweep(args: &[String]) -> i32 {
     let _ = std::fs::remove_dir_all(&ctx.scratch);
     0
 }
+
+/// `explain <replay.json>`: run one saved case (non-strict unless the file says so) and print
+/// the labels, exclusions and verdict it produces (development aid for hand-made regression cases).
+pub fn explain(args: &[String]) -> i32 {
+    use crate::engine::{Case, Target};
+    let Some(file) = args.first() else {
+        eprintln!("usage: explain <replay.json>");
+        return 2;
+    };
+    let v: serde_json::Value = match std::fs::read(file).ok().and_then(|b| serde_json::from_slice(&b).ok()) {
+        Some(v) => v,
+        None => {
+            eprintln!("cannot read {file}");
+            return 2;
+        }
+    };
+    let ctx = ctx(v["strict"].as_bool().unwrap_or(false));
+    fn run<T: Target>(t: &T, ctx: &Ctx, case: &serde_json::Value) -> Option<vcore::Outcome> {
+        let c: Case<T::Spec> = serde_json::from_value(case.clone()).ok()?;
+        let p = t.build(ctx, &c.spec).ok()?;
+        Some(t.eval(ctx, &p, &c.plan))
+    }
+    let part = v["part"].as_str().unwrap_or("");
+    let out = match part {
+        "sst-damage" => run(&SstDamage, &ctx, &v["case"]),
+        "log-damage" => run(&LogDamage, &ctx, &v["case"]),
+        "manifest-damage" => run(&ManiDamage, &ctx, &v["case"]),
+        "manifest-backup-damage" => run(&crate::backuppart::BackupDamage, &ctx, &v["case"]),
+        _ => None,
+    };
+    let _ = std::fs::remove_dir_all(&ctx.scratch);
+    match out {
+        None => {
+            eprintln!("case of part {part:?} could not be parsed or built");
+            2
+        }
+        Some(o) => {
+            println!("part {part}: nontrivial={} excluded={:?}", o.nontrivial, o.excluded);
+            for l in o.labels.iter() {
+                println!("  {l}");
+            }
+            match o.failure {
+                Some(f) => {
+                    println!("FAIL {}: {}", f.signature, f.message);
+                    1
+                }
+                None => {
+                    println!("pass");
+                    0
+                }
+            }
+        }
+    }
+}
